@@ -509,7 +509,7 @@ Definition s1_model : mcfg := mkM s1_cfg 100.
 (* read 1, ack 1, flush; the Set of the source fails inside the transaction, the commit succeeds;
    the flush callback runs, the delivery goroutine sends *)
 Definition s1_schedule : list action :=
-  [ARead 0 1; AAck 0 [1]; AFlush; AWriteDone true [0] true; ACallback 0; ADeliver 0 true].
+  [ARead 0 1; AAck 0 [1]; AFlush CtxLive; AWriteDone true [0] true; ACallback 0; ADeliver 0 true].
 
 Theorem plugin_ack_after_commit_refuted :
   let l := run_log s1_model s1_schedule in
@@ -532,7 +532,7 @@ Proof. vm_compute. reflexivity. Qed.
    acks record 2 and then record 1 moves the stored position backwards *)
 Example stored_position_needs_engine_order :
   run_log (mkM (mkCfg 1 [0] 2 true) 100)
-    [ARead 0 1; ARead 0 2; AAck 0 [2]; AFlush; AWriteDone true [] true; AAck 0 [1]; AFlush; AWriteDone true [] true] =
+    [ARead 0 1; ARead 0 2; AAck 0 [2]; AFlush CtxLive; AWriteDone true [] true; AAck 0 [1]; AFlush CtxLive; AWriteDone true [] true] =
   [ERead 0 1; ERead 0 2; EAck 0 [2]; ETxBegin; ECommit [mkW 0 1 2 true] true [(1, 2)];
    EAck 0 [1]; ETxBegin; ECommit [mkW 0 2 1 true] true [(2, 1)]].
 Proof. vm_compute. reflexivity. Qed.
@@ -599,12 +599,12 @@ Definition nv_model : mcfg := mkM nv_cfg 100.
 Definition nv_schedule : list action :=
   [ARead 0 1; ARead 0 2; AAck 0 [1; 2]; ARead 1 4; AAck 1 [4]; ATimer; AWriteDone true [] true;
    ACallback 0; ACallback 0; ADeliver 0 true; ADeliver 1 true;
-   ARead 0 3; AAck 0 [3]; ATdBegin 0; AWriteDone true [] true; ACallback 0; ADeliver 0 true;
+   ARead 0 3; AAck 0 [3]; ATdBegin 0 CtxLive; AWriteDone true [] true; ACallback 0; ADeliver 0 true;
    ATdWaited 0; ATdCancel 0].
 Definition nv3_cfg : cfg := mkCfg 1 [5] 2 true.
 Definition nv3_model : mcfg := mkM nv3_cfg 100.
 Definition nv3_schedule : list action :=
-  [ARead 0 6; ARead 0 7; ARead 0 8; AAck 0 [6; 7]; AFlush; AWriteDone true [] true; ACallback 0; ACallback 0;
+  [ARead 0 6; ARead 0 7; ARead 0 8; AAck 0 [6; 7]; AFlush CtxLive; AWriteDone true [] true; ACallback 0; ACallback 0;
    ADeliver 0 true; AAck 0 [8]; ARead 0 9].
 
 (* teardown_drains needs its "quiet start" hypothesis: two sources, nothing fails, no bounded wait of
@@ -615,9 +615,9 @@ Definition nv3_schedule : list action :=
 Definition late_cb_cfg : cfg := mkCfg 2 [0; 0] 2 true.
 Definition late_cb_schedule : list action :=
   [ATimer; AWriteDone true [] true; ACallback 0; ACallback 0;
-   ARead 0 1; AAck 0 [1]; AFlush; AWriteDone true [] true;        (* source 0: acked, committed, callback pending *)
+   ARead 0 1; AAck 0 [1]; AFlush CtxLive; AWriteDone true [] true;        (* source 0: acked, committed, callback pending *)
    ARead 1 1; AAck 1 [1];
-   ATdBegin 0; AWriteDone true [] true; ACallback 1;               (* Teardown(0): its flush holds source 1 only *)
+   ATdBegin 0 CtxLive; AWriteDone true [] true; ACallback 1;               (* Teardown(0): its flush holds source 1 only *)
    ATdWaited 0; ACallback 0; ATdCancel 0; ATdDown 0 true].
 
 Example teardown_needs_quiet_start :
@@ -643,8 +643,8 @@ Example held_send_teardown_must_drain :
   accepts held_cfg (held_log true) = true /\ Mon_C02 true held_cfg (held_log true) = true /\
   (* the model produces the good one *)
   run_log (mkM held_cfg 100)
-    [ARead 0 1; AAck 0 [1]; AFlush; AWriteDone true [] true; ACallback 0; ACallback 0; AHold 0;
-     ARead 0 2; AAck 0 [2]; ATdBegin 0; AWriteDone true [] true; ACallback 0; ADeliver 0 true; ATdWaited 0;
+    [ARead 0 1; AAck 0 [1]; AFlush CtxLive; AWriteDone true [] true; ACallback 0; ACallback 0; AHold 0;
+     ARead 0 2; AAck 0 [2]; ATdBegin 0 CtxLive; AWriteDone true [] true; ACallback 0; ADeliver 0 true; ATdWaited 0;
      ADeliver 0 true; ATdCancel 0; ATdDown 0 true] = held_log true.
 Proof. vm_compute. repeat split. Qed.
 
@@ -721,8 +721,8 @@ End CrashRestart.
    second log: rejected by the acceptor and by both monitors. *)
 Definition stop_cfg : cfg := mkCfg 1 [0] 2 true.
 Definition stop_schedule : list action :=
-  [ARead 0 1; ARead 0 2; ARead 0 3; ARead 0 4; ARead 0 5; AAck 0 [1; 2]; AFlush; AWriteDone true [] true;
-   ACallback 0; ACallback 0; ADeliver 0 true; AStop 0; ATdBegin 0; ATdWaited 0; ATdCancel 0; ATdDown 0 true].
+  [ARead 0 1; ARead 0 2; ARead 0 3; ARead 0 4; ARead 0 5; AAck 0 [1; 2]; AFlush CtxLive; AWriteDone true [] true;
+   ACallback 0; ACallback 0; ADeliver 0 true; AStop 0; ATdBegin 0 CtxLive; ATdWaited 0; ATdCancel 0; ATdDown 0 true].
 Definition stop_bad_log : list event :=
   [ERead 0 1; ERead 0 2; ERead 0 3; ERead 0 4; ERead 0 5; EAck 0 [1; 2]; ETxBegin;
    ECommit [mkW 0 1 2 true] true [(1, 2)]; EPAck 0 1 [1; 2]; ETdBegin 0; ETxBegin;
